@@ -1,20 +1,31 @@
 """C30 CI merges only fully tested, approved, current PRs.
 
 Decides (from the syntax trees of ci/ci/*.py, nothing is run):
-  R1  who-may-call: the GitHub merge request (`PUT …/pulls/N/merge`) is issued only by PR.merge; PR.merge is called only from
-      WatchedBranch.try_to_merge, and every such call is reached only through a branch edge that guarantees
-      `<that pr>.is_mergeable()`; try_to_merge is called only from WatchedBranch._update
-  R2  PR.is_mergeable returns a conjunction that contains (self-method helpers inlined): review_state == 'approved',
-      a non-empty status map, every status == GithubStatus.SUCCESS, batch target_sha == target_branch.sha, no DO_NOT_MERGE label;
-      DO_NOT_MERGE is a non-empty set of label constants
+  R1  who-may-call: the GitHub merge request (`PUT …/pulls/N/merge`, the URL followed through locals / module constants) is issued only by
+      PR.merge, once; no GraphQL merge / auto-merge mutation is sent anywhere; PR.merge is called only from WatchedBranch.try_to_merge, and every
+      such call is reached only through a branch edge that guarantees `<that pr>.is_mergeable()`; try_to_merge is called only from
+      WatchedBranch._update (or from a private helper reached only from it)
+  R2  PR.is_mergeable returns a conjunction that contains (self-method helpers inlined; a disjunction establishes only what each of its
+      disjuncts establishes): review_state == 'approved', a non-empty status map, every status == GithubStatus.SUCCESS, batch target_sha ==
+      target_branch.sha, no DO_NOT_MERGE label; DO_NOT_MERGE is a non-empty set of label constants
   R3  one merge per target update: after a successful `pr.merge`, no second merge is reachable in that call and every path to
       the exit resets `self.sha = None` (so that no PR is "up to date" until the target branch has been re-read)
-  R4  the merge request pins `'sha': self.source_sha`; when the head commit changes update_from_gh_json records the new head and
-      clears `self.batch` and the build state
+  R4  the merge request body - evaluated to an abstract dict through same-class helpers, dict literals, dict(...), {**a}, a | b, d[k] = v,
+      d.update(...) on every path to the PUT (engines/guards.DictFlow) - pins `'sha': self.source_sha`; when the head commit changes
+      update_from_gh_json records the new head and clears `self.batch` and the build state
   R5  "tested" chain: the CI status SUCCESS is derived only from build_state == 'success'; build_state 'success' is written only by
       PR._update_batch under `status['complete']` and `status['state'] == 'success'`; PR._heal forces the intended CI status into the
       status map is_mergeable reads; _update attempts a merge only after _heal in the same iteration; the test batch is created with
       target_sha = target_branch.sha / source_sha = self.source_sha and looked up by the current source_sha
+  R6  lost update: for every coroutine of ci/ci that consumes dirty flags (attributes raised `= True` elsewhere, tested and cleared in it; helpers
+      inlined) each clear is reached from the test that found the flag set with no suspension point in between, is followed by awaited work,
+      no clear of such a flag exists outside that pattern, and after every suspension the coroutine re-tests the flag before it returns
+  R7  single flight: the busy guard of that coroutine is taken atomically with the test that found it free, before the first suspension,
+      held across all of them, released last and on every exit
+  R8  review provenance: review_state is written only through set_review_state, called only by PR._update_github with a local that is
+      'approved' only under `<reviewDecision of this refresh's response> == 'APPROVED'`, and stored whenever it differs from the recorded state
+  R9  freshness: target sha, labels and status map are replaced by what this refresh read from GitHub whenever they differ; push /
+      pull_request / pull_request_review events reach notify_github_changed and batch callbacks reach notify_batch_changed
 Does not decide: the behaviour of GitHub; that the statuses GitHub reports belong to the head (CI asks for `commits(last: 1)`).
 """
 from __future__ import annotations
@@ -23,19 +34,21 @@ import ast
 import re
 from typing import Callable, Dict, List, Optional, Sequence, Set, Tuple
 
-from engines import guards, pyfacts as pf
+from engines import absdom, asyncfacts as af, guards, inline, pyfacts as pf
 from engines.guards import Facts
 from engines.common import AnalysisError, Ctx, short
 
 META = dict(
     category='other',
     text='Closed-world who-may-call scan of ci/ci/*.py for the merge request and its callers, CFG must-pass-through with branch-edge '
-         'polarity for the is_mergeable gate and the one-merge-per-update exit, and a fact extraction over the returned conjunction of '
-         'is_mergeable (helpers inlined).  Level `other`: the property quantifies over event histories; the rules are the structural '
-         'necessary conditions on every code path, not a model of GitHub.',
-    note='Trusted: CPython ast; engines/pyfacts CFG. Assumes GitHub refuses a merge whose pinned sha is not the head. '
-         'Not decided: GitHub-side behaviour, `self.sha` (merge-commit sha) reset on head change is not needed by the gate and is not demanded.',
-    technique='static analysis: who-may-call closure + CFG dominance with edge polarity + boolean fact extraction',
+         'polarity for the is_mergeable gate and the one-merge-per-update exit, a fact extraction over the returned conjunction of '
+         'is_mergeable (helpers inlined, disjunctions weakened), an abstract-dict evaluation of the merge request body, and await-atomicity '
+         'rules for the dirty-flag / busy-guard protocol of the update coroutine.  Level `other`: the property quantifies over event '
+         'histories; the rules are the structural necessary conditions on every code path, not a model of GitHub.',
+    note='Trusted: CPython ast; engines/pyfacts CFG; asyncio atomicity between suspension points. Assumes GitHub refuses a merge whose pinned sha is not '
+         'the head. Not decided: GitHub-side behaviour, `self.sha` (merge-commit sha) reset on head change is not needed by the gate and is not demanded.',
+    technique='static analysis: who-may-call closure + CFG dominance with edge polarity + boolean fact extraction + abstract dict evaluation + '
+              'await-atomicity (test-and-clear, single flight)',
     design_ref='DESIGN.md §3 C30',
 )
 
@@ -151,6 +164,44 @@ def _classify(e: ast.expr, pol: bool) -> Tuple[str, Optional[str]]:
     return 'unknown', None
 
 
+def _classify_disjunction(facts: Facts, e: ast.BoolOp) -> List[Tuple[str, Optional[str]]]:
+    """`a or b` being true establishes only what every disjunct establishes; what merely some disjunct requires is weaker than required."""
+    per: List[Tuple[Set[str], Set[str], bool]] = []
+    for d in e.values:
+        match: Set[str] = set()
+        rel: Set[str] = set()
+        unknown = False
+        fs = facts.true(d)
+        inl = {id(x) for x, _ in fs if facts.inline(x, 1) is not None}
+        for x, pl in fs:
+            if id(x) in inl:
+                continue
+            if pl and isinstance(x, ast.BoolOp) and isinstance(x.op, ast.Or):
+                sub = _classify_disjunction(facts, x)
+            else:
+                sub = [_classify(x, pl)]
+            for c, k in sub:
+                if c == 'match':
+                    match.add(k)  # type: ignore[arg-type]
+                elif c in ('weak', 'related'):
+                    rel.add(k)  # type: ignore[arg-type]
+                elif c == 'unknown':
+                    unknown = True
+        per.append((match, rel, unknown))
+    established = set.intersection(*[p[0] for p in per]) if per else set()
+    mentioned = set().union(*[p[0] | p[1] for p in per]) - established
+    out: List[Tuple[str, Optional[str]]] = [('match', k) for k in sorted(established)]
+    for k in sorted(mentioned):
+        escapes = [p for p in per if k not in p[0]]
+        if any(not p[2] for p in escapes):
+            out.append(('weak', k))   # a fully understood disjunct lets the PR through without k
+        else:
+            out.append(('unknown', None))
+    if not out:
+        out.append(('unknown', None) if any(p[2] for p in per) else ('harmless', None))
+    return out
+
+
 def _is_false_const(e: Optional[ast.expr]) -> bool:
     return isinstance(e, ast.Constant) and e.value is False
 
@@ -179,10 +230,17 @@ def _check_is_mergeable(ctx: Ctx, m: pf.Module, facts: Facts) -> None:
         have: Dict[str, str] = {}
         weak: Dict[str, str] = {}
         unknown: List[str] = []
+        classified: List[Tuple[ast.expr, bool, str, Optional[str]]] = []
         for e, pol in fs:
             if id(e) in inlined_calls:
                 continue
+            if pol and isinstance(e, ast.BoolOp) and isinstance(e.op, ast.Or):
+                for c, kind in _classify_disjunction(facts, e):
+                    classified.append((e, pol, c, kind))
+                continue
             c, kind = _classify(e, pol)
+            classified.append((e, pol, c, kind))
+        for e, pol, c, kind in classified:
             desc = ('' if pol else 'not ') + short(pf.nsrc(e), 90)
             if c == 'match':
                 have[kind] = desc  # type: ignore[index]
@@ -256,6 +314,7 @@ def _merge_request_sites(mods: List[pf.Module]) -> List[Tuple[pf.Module, str, as
     """Calls that carry a `…/pulls/{n}/merge` URL (directly, or through a local / module constant holding it), and calls that send a
     GraphQL document naming a merge mutation.  A merge URL that reaches no call we can identify is an analysis error."""
     out = []
+    mod_urls = {mod.rel: [st for st in mod.tree.body if isinstance(st, (ast.Assign, ast.AnnAssign)) and st.value is not None and _is_merge_url(st.value)] for mod in mods}
     for mod in mods:
         for qual, fn in mod.functions():
             linked: Set[int] = set()
@@ -263,6 +322,8 @@ def _merge_request_sites(mods: List[pf.Module]) -> List[Tuple[pf.Module, str, as
             # keep outermost expressions only
             inner = {id(x) for u in url_exprs for x in ast.walk(u) if x is not u}
             url_exprs = [u for u in url_exprs if id(u) not in inner]
+            if not url_exprs and not mod_urls.get(mod.rel):
+                continue
             for c in pf.calls_in(fn):
                 for a in list(c.args) + [k.value for k in c.keywords]:
                     r = pf.resolve_expr(fn, a)
@@ -325,6 +386,12 @@ def _check_callers(ctx: Ctx, mods: List[pf.Module], m: pf.Module, facts: Facts, 
                else 'PR.merge issues a second merge request: the pinned head / single-merge analysis covers one request per call')
         ctx.check(ok, 'R1', f'{mod.rel}::{qual}::merge request {short(pf.nsrc(c.func), 40)}' + ('' if ok or c is in_merge[0][2] or not in_merge else ' (second)'),
                   why, mod.path, c.lineno)
+    # positive control for the zero-expected scan: the same function must see a merge mutation in a synthetic module
+    ctl_src = "async def f(gh):\n    await gh.post('/graphql', data={'query': 'mutation { enablePullRequestAutoMerge(input: {}) { clientMutationId } }'})\n"
+    ctl = pf.Module('<control>', '<control>', ctl_src, ast.parse(ctl_src))
+    ctx.need(len(_graphql_merges([ctl])) == 1 and not _graphql_merges([pf.Module('<c2>', '<c2>', 'x = "query { pullRequest }"', ast.parse('x = "query { pullRequest }"'))]),
+             'internal: GraphQL merge-mutation scan failed its positive control')
+    ctx.ok('R1', 'control::graphql merge mutation scan', 'synthetic enablePullRequestAutoMerge document is recognised', nontrivial=False)
     for mod, qual, n, g in _graphql_merges(mods):
         ctx.bad('R1', f'{mod.rel}::{qual}::graphql {g}', f'a GraphQL `{g}` mutation is issued: a second way to merge that is neither behind the is_mergeable gate of '
                 'try_to_merge nor pinned to the head commit the checks were read for (e.g. auto-merge merges once GitHub\'s own rules are met, whatever CI\'s '
@@ -366,11 +433,52 @@ def _check_callers(ctx: Ctx, mods: List[pf.Module], m: pf.Module, facts: Facts, 
                 if isinstance(c.func, ast.Attribute) and c.func.attr == 'try_to_merge':
                     n_ttm += 1
                     cons = f'{mod.rel}::{qual}::{short(pf.nsrc(c), 60)}'
-                    ok = mod.rel == F and qual == 'WatchedBranch._update' and pf.nsrc(c.func.value) == 'self'
+                    ok = mod.rel == F and pf.nsrc(c.func.value) == 'self' and _only_reached_from(mods, 'WatchedBranch', qual, 'WatchedBranch._update')
                     ctx.check(ok, 'R1', cons, 'try_to_merge is called outside WatchedBranch._update: merges are attempted without the preceding '
                               'GitHub / batch refresh and _heal of the same update iteration', mod.path, c.lineno)
     ctx.need(n_ttm >= 1, 'no caller of try_to_merge found (anchor vanished)')
     return merge_calls
+
+
+_CALL_INDEX: Dict[int, Dict[str, Tuple[List[Tuple[str, str, str]], bool]]] = {}
+
+
+def _call_index(mods: List[pf.Module]) -> Dict[str, Tuple[List[Tuple[str, str, str]], bool]]:
+    """attribute name -> ([(module, calling function, receiver source)] for every `<recv>.name(...)` call, does the bound attribute escape uncalled?)"""
+    key = id(mods)
+    if key not in _CALL_INDEX:
+        idx: Dict[str, Tuple[List[Tuple[str, str, str]], bool]] = {}
+        for mod in mods:
+            for q2, f2 in mod.functions():
+                called = set()
+                for c in pf.calls_in(f2):
+                    if isinstance(c.func, ast.Attribute):
+                        called.add(id(c.func))
+                        ent = idx.setdefault(c.func.attr, ([], False))
+                        ent[0].append((mod.rel, q2, pf.nsrc(c.func.value)))
+                for n in pf.walk_shallow(f2):
+                    if isinstance(n, ast.Attribute) and isinstance(n.ctx, ast.Load) and id(n) not in called and isinstance(n.value, ast.Name) and n.value.id == 'self':
+                        ent = idx.setdefault(n.attr, ([], False))
+                        idx[n.attr] = (ent[0], True)
+        _CALL_INDEX[key] = idx
+    return _CALL_INDEX[key]
+
+
+def _only_reached_from(mods: List[pf.Module], cls: str, qual: str, root: str, depth: int = 3) -> bool:
+    """`qual` is `root`, or a private helper method of the same class all of whose call sites (anywhere in ci/ci) lie in functions that
+    satisfy the same condition (the helper is then analysed inlined into `root`)."""
+    if qual == root:
+        return True
+    if depth <= 0 or not qual.startswith(cls + '.') or qual.count('.') != 1:
+        return False
+    name = qual.split('.')[1]
+    calls, escapes = _call_index(mods).get(name, ([], False))
+    methods = {f.name for f in pf.load(F).cls(cls).body if isinstance(f, (ast.FunctionDef, ast.AsyncFunctionDef))}
+    if escapes and name in methods:
+        return False  # the bound method escapes (callback, create_task, ...)
+    if not calls or any(not (rel == F and recv == 'self') for rel, _q, recv in calls):
+        return False
+    return all(_only_reached_from(mods, cls, q2, root, depth - 1) for _rel, q2, _recv in calls)
 
 
 def _check_one_merge(ctx: Ctx, m: pf.Module, facts: Facts, merge_calls: List[Tuple[pf.FuncDef, str, ast.Call]]) -> None:
@@ -702,7 +810,8 @@ def _check_tested_chain(ctx: Ctx, mods: List[pf.Module], m: pf.Module, facts: Fa
                   + ': is_mergeable then reads a stale SUCCESS', m.path, fn.lineno)
 
     # (d) _update: merge attempt only after _heal of the same iteration
-    fn = m.func('WatchedBranch._update')
+    m_inl, _il = inline.inline_methods(m, 'WatchedBranch', '_update', exclude=('try_to_merge', '_heal', '_update_github', '_update_batch'))
+    fn = m_inl.func('WatchedBranch._update')
     cfg = pf.cfg(fn)
     ttm = [n for n in cfg.nodes if any(isinstance(c.func, ast.Attribute) and c.func.attr == 'try_to_merge' for c in pf.node_calls(n))]
     ctx.need(ttm, 'WatchedBranch._update: try_to_merge call not found')
@@ -770,23 +879,620 @@ def _check_tested_chain(ctx: Ctx, mods: List[pf.Module], m: pf.Module, facts: Fa
               f'the build batch query {q!r} does not select test batches', m.path, lb[0].lineno)
 
 
+# --------------------------------------------------------------------------------------
+# R6 / R7: dirty flags (test-and-clear) and the single-flight guard of the update coroutine
+# --------------------------------------------------------------------------------------
+
+
+def _attr_assigns(fn: ast.AST) -> List[Tuple[ast.AST, ast.Attribute, ast.expr]]:
+    """(statement, attribute target, value) for every attribute written by a plain assignment in fn (nested defs excluded)."""
+    out = []
+    for n in pf.walk_shallow(fn):
+        if isinstance(n, ast.Assign):
+            for t in n.targets:
+                if isinstance(t, ast.Attribute):
+                    out.append((n, t, n.value))
+        elif isinstance(n, ast.AnnAssign) and isinstance(n.target, ast.Attribute) and n.value is not None:
+            out.append((n, n.target, n.value))
+    return out
+
+
+def _is_const(e: ast.AST, v: bool) -> bool:
+    return isinstance(e, ast.Constant) and e.value is v
+
+
+def _value_edges(cfg: pf.CFG, attr_src: str, value: bool) -> List[Tuple[pf.Node, str]]:
+    """Branch edges whose traversal implies `attr_src` is `value`."""
+    out = []
+    for t in cfg.nodes:
+        if t.kind != 'test' or not isinstance(t.ast, ast.expr) or not af.mentions(t.ast, attr_src):
+            continue
+        for label in ('T', 'F'):
+            if any(lab == label for _, lab in t.succ) and af.implied_on_edge(t.ast, label, attr_src, value):
+                out.append((t, label))
+    return out
+
+
+def _atomic_guard(cfg: pf.CFG, node: pf.Node, edges: List[Tuple[pf.Node, str]]) -> Tuple[Optional[Tuple[pf.Node, str]], Optional[pf.Node]]:
+    """-> (guard edge reaching `node` on every path with no suspension in between | None, a suspension between a dominating guard and node | None)."""
+    susp = None
+    for t, label in edges:
+        if not af.every_path_uses_edge(cfg, node, t, label) or not af.direct(cfg, t, node, label):
+            continue
+        if pf.node_has_await(t):
+            susp = susp or t
+            continue
+        mid = [x for x in af.between(cfg, t, node, label) if pf.node_has_await(x)]
+        if mid:
+            susp = susp or mid[0]
+            continue
+        return (t, label), None
+    return None, susp
+
+
+def _check_flags(ctx: Ctx, mods: List[pf.Module]) -> None:
+    # who raises which attribute (X.attr = True), anywhere in ci/ci
+    raised: Dict[str, List[Tuple[str, str, ast.AST]]] = {}
+    lowered: Dict[str, List[Tuple[pf.Module, str, pf.FuncDef, ast.AST]]] = {}
+    for mod in mods:
+        for qual, fn in mod.functions():
+            for st, t, v in _attr_assigns(fn):
+                if _is_const(v, True):
+                    raised.setdefault(t.attr, []).append((mod.rel, qual, st))
+                elif _is_const(v, False):
+                    lowered.setdefault(t.attr, []).append((mod, qual, fn, st))
+    n_cls = 0
+    for mod in mods:
+        for cls in mod.classes():
+            for f0 in cls.body:
+                if not isinstance(f0, ast.AsyncFunctionDef) or not f0.args.args:
+                    continue
+                recv = f0.args.args[0].arg
+                qual = f'{cls.name}.{f0.name}'
+                # cheap pre-filter on the un-inlined consumer: it tests and lowers some attribute that others raise
+                own_low = {t.attr for _, t, v in _attr_assigns(f0) if _is_const(v, False) and pf.nsrc(t.value) == recv}
+                cand = {a for a in own_low if any((r, q) != (mod.rel, qual) for r, q, _ in raised.get(a, []))}
+                helper_low = {t.attr for f1 in cls.body if isinstance(f1, (ast.FunctionDef, ast.AsyncFunctionDef)) and f1 is not f0
+                              for _, t, v in _attr_assigns(f1) if _is_const(v, False) and pf.nsrc(t.value) == (f1.args.args[0].arg if f1.args.args else '')}
+                tested = {n.attr for n in pf.walk_shallow(f0) if isinstance(n, ast.Attribute) and pf.nsrc(n.value) == recv and isinstance(n.ctx, ast.Load)}
+                if not ((cand | (helper_low & tested)) & tested):
+                    continue
+                # a private helper reached only from another coroutine of the class is analysed inlined into that one
+                roots = [g.name for g in cls.body if isinstance(g, ast.AsyncFunctionDef) and g is not f0
+                         and _only_reached_from(mods, cls.name, qual, f'{cls.name}.{g.name}')]
+                if roots and f0.name in {h for h, _ in inline.inline_methods(mod, cls.name, roots[0])[1].inlined}:
+                    continue
+                m2, il = inline.inline_methods(mod, cls.name, f0.name)
+                fn = [f for f in m2.cls(cls.name).body if isinstance(f, ast.AsyncFunctionDef) and f.name == f0.name][0]
+                cfg = pf.cfg(fn)
+                reach = cfg.reachable_from(cfg.entry)
+                inlined = {h for h, _ in il.inlined}
+                tests = [n for n in cfg.nodes if n.kind == 'test' and isinstance(n.ast, ast.expr) and n.id in reach]
+                flags = []
+                for a in sorted(tested | helper_low):
+                    src = f'{recv}.{a}'
+                    if not any(af.mentions(t.ast, src) and src in [absdom.atom_key(x) for x in absdom.bool_atoms(t.ast)] for t in tests):
+                        continue
+                    clears = [n for n in cfg.nodes if n.id in reach and n.kind == 'stmt' and any(pf.nsrc(t) == src and _is_const(v, False) for _, t, v in _attr_assigns(n.ast))]
+                    outside = [(r, q) for r, q, _ in raised.get(a, []) if (r, q) != (mod.rel, qual)]
+                    if clears and outside:
+                        flags.append((a, src, clears, outside))
+                if not flags:
+                    continue
+                n_cls += 1
+                ctx.unit('flag_consumers')
+                awaits = [n for n in cfg.nodes if n.id in reach and pf.node_has_await(n)]
+                ctx.need(awaits, f'{mod.rel}::{qual}: dirty flags {[f[0] for f in flags]} but no suspension point (unrecognised consumer)')
+                where = f'{mod.rel}::{qual}'
+                for a, src, clears, outside in flags:
+                    setters = sorted({q for _, q in outside if not q.endswith('.__init__')}) or sorted({q for _, q in outside})
+                    # unrecognised reads / writes of the flag inside the consumer: decline
+                    for n in cfg.nodes:
+                        if n.id not in reach or n.ast is None:
+                            continue
+                        for x in pf.node_exprs(n):
+                            for y in pf.walk_shallow(x):
+                                if isinstance(y, ast.Attribute) and pf.nsrc(y) == src:
+                                    if isinstance(y.ctx, ast.Load):
+                                        ctx.need(n.kind == 'test', f'{where}: `{short(n.text(), 60)}` reads {src} outside a branch test (unrecognised test-and-clear idiom)')
+                                    else:
+                                        ok_w = n.kind == 'stmt' and isinstance(n.ast, (ast.Assign, ast.AnnAssign)) and isinstance(n.ast.value, ast.Constant) \
+                                            and isinstance(n.ast.value.value, bool) and (not isinstance(n.ast, ast.Assign) or len(n.ast.targets) == 1)
+                                        ctx.need(ok_w, f'{where}: `{short(n.text(), 60)}` writes {src} by an unrecognised idiom')
+                    t_edges = _value_edges(cfg, src, True)
+                    f_edges = {(t.id, lab) for t, lab in _value_edges(cfg, src, False)}
+                    # (a) test-and-clear is atomic, (b) the consuming work follows the clear
+                    for k in clears:
+                        cons = f'{where}::flag {a}::clear'
+                        guard, susp = _atomic_guard(cfg, k, t_edges)
+                        if guard is None and susp is not None:
+                            ctx.bad('R6', cons, f'`{src} = False` (line {k.lineno}) comes after the suspension point `{short(susp.text(), 60)}` that follows the test of {src}: '
+                                    f'{"/".join(setters[:3])} only raise the flag and return while this coroutine is running, so a notification that arrives during that await is '
+                                    'overwritten when the await finishes and is never processed (lost update). History: refresh in flight, the target branch is pushed and the '
+                                    'webhook is delivered, the refresh finishes and clears the flag -> the branch sha stays stale; the next batch callback finds the PR '
+                                    '"up to date" against the old target commit and merges it', mod.path, k.lineno)
+                            continue
+                        if guard is None:
+                            ctx.bad('R6', cons, f'`{src} = False` (line {k.lineno}) is not reached through a test that found {src} set: the flag is cleared without its work being '
+                                    f'done, so a notification raised by {"/".join(setters[:3])} since the last test is dropped (lost update: stale target sha / review / label / '
+                                    'batch state is then used to merge)', mod.path, k.lineno)
+                            continue
+                        t = guard[0]
+                        # (b) is decided on the consumer as written (helpers not inlined: whether a refresh helper awaits on every one of its own
+                        # paths - e.g. with no open PR - is data, not structure)
+                        idle = None
+                        cfg0 = pf.cfg(f0)
+                        for k0 in [n for n in cfg0.nodes if n.kind == 'stmt' and n.ast is not None
+                                   and any(pf.nsrc(t0) == src and _is_const(v0, False) for _, t0, v0 in _attr_assigns(n.ast))]:
+                            g0, _s0 = _atomic_guard(cfg0, k0, _value_edges(cfg0, src, True))
+                            if g0 is not None:
+                                idle = idle or cfg0.path_avoiding(k0, lambda n, t0=g0[0]: n is t0 or n is cfg0.exit, pf.node_has_await)
+                        ctx.check(idle is None, 'R6', cons,
+                                  f'after `{src} = False` the next test of the flag / the return is reachable without any awaited work '
+                                  f'[{_fmt_path(idle) if idle else ""}]: the notification is consumed but the refresh it asks for is not performed', mod.path, k.lineno,
+                                  detail={'guard': pf.nsrc(t.ast), 'edge': guard[1], 'raised_by': setters})
+                    # (c) no normal exit after a suspension without re-testing the flag
+                    leak = None
+                    for w in awaits:
+                        leak = cfg.path_avoiding(w, lambda n: n is cfg.exit, pf.node_has_await, edge_ok=lambda x, y, lab: (x.id, lab) not in f_edges)
+                        if leak:
+                            break
+                    ctx.check(leak is None, 'R6', f'{where}::flag {a}::re-tested before release',
+                              f'after the suspension point `{short(leak[0].text(), 50) if leak else ""}` the coroutine can return without testing {src} again '
+                              f'[{_fmt_path(leak) if leak else ""}]: {"/".join(setters[:3])} arriving during that await only raise the flag (the consumer is busy), and nothing '
+                              'processes it until some unrelated later event', mod.path, fn.lineno, detail={'exit_edges': len(f_edges)})
+                # clears of these flags outside the consumer
+                for a, src, clears, outside in flags:
+                    for mod3, q3, f3, st in lowered.get(a, []):
+                        if (mod3.rel, q3) == (mod.rel, qual) or q3.endswith('.__init__'):
+                            continue
+                        if mod3.rel == mod.rel and q3.split('.')[0] == cls.name and q3.split('.')[-1] in inlined:
+                            continue  # seen inside the consumer
+                        cfg3 = pf.cfg(f3)
+                        tgt = [t for _, t, v in _attr_assigns(st) if t.attr == a][0]
+                        src3 = pf.nsrc(tgt)
+                        ks = cfg3.node_of(st)
+                        ctx.need(ks, f'{mod3.rel}::{q3}: `{pf.nsrc(st)}` not found in the CFG')
+                        guard, susp = _atomic_guard(cfg3, ks[0], _value_edges(cfg3, src3, True))
+                        ctx.check(guard is not None, 'R6', f'{mod3.rel}::{q3}::flag {a}::clear',
+                                  f'`{pf.nsrc(st)}` clears the dirty flag outside {qual} ' + ('after a suspension point ' if susp is not None else 'without having tested it ')
+                                  + 'and without doing the refresh it stands for: a notification raised since the last refresh is dropped (lost update)', mod3.path, st.lineno)
+                busy = _check_single_flight(ctx, mod, cls, qual, fn, cfg, reach, awaits, {f[0] for f in flags})
+                # notifiers: a method that raises a flag and then runs the consumer must raise it on every path (in particular while the consumer is busy)
+                flag_names = {f[0] for f in flags}
+                for g in cls.body:
+                    if not isinstance(g, (ast.FunctionDef, ast.AsyncFunctionDef)) or g is f0 or not g.args.args:
+                        continue
+                    r2 = g.args.args[0].arg
+                    if not any(isinstance(c.func, ast.Attribute) and c.func.attr == f0.name and pf.nsrc(c.func.value) == r2 for c in pf.calls_in(g)):
+                        continue
+                    cfg_g = pf.cfg(g)
+                    for a in sorted(flag_names):
+                        raises = [n for n in cfg_g.nodes if n.kind == 'stmt' and n.ast is not None
+                                  and any(t.attr == a and pf.nsrc(t.value) == r2 and _is_const(v, True) for _, t, v in _attr_assigns(n.ast))]
+                        if not raises:
+                            continue
+                        skip = cfg_g.path_avoiding(cfg_g.entry, lambda n: n is cfg_g.exit, lambda n: any(n is x for x in raises))
+                        ctx.check(skip is None, 'R6', f'{mod.rel}::{cls.name}.{g.name}::flag {a}::raised on every path',
+                                  f'{cls.name}.{g.name} can return without `{r2}.{a} = True` [{_fmt_path(skip) if skip else ""}]: a notification that arrives while {qual} is '
+                                  'busy (the only time the flag matters) is dropped, and the state CI merges on (target sha, review, labels, batch) stays stale',
+                                  mod.path, g.lineno)
+                if busy is not None:
+                    # nobody but the consumer itself may make a notification depend on the busy guard
+                    for mod3 in mods:
+                        for q3, f3 in mod3.functions():
+                            if (mod3.rel, q3) == (mod.rel, qual):
+                                continue
+                            tests = [n.test for n in pf.walk_shallow(f3) if isinstance(n, (ast.If, ast.While, ast.IfExp))]
+                            tests = [t for t in tests if any(isinstance(x, ast.Attribute) and x.attr == busy and isinstance(x.ctx, ast.Load) for x in ast.walk(t))]
+                            if not tests:
+                                continue
+                            raises_flag = any(isinstance(x, ast.Attribute) and x.attr in flag_names and isinstance(x.ctx, ast.Store) for x in pf.walk_shallow(f3))
+                            calls_notifier = any(isinstance(c.func, ast.Attribute) and (c.func.attr.startswith('notify_') or c.func.attr in (f0.name, 'update'))
+                                                 for c in pf.calls_in(f3))
+                            if raises_flag or calls_notifier:
+                                ctx.bad('R6', f'{mod3.rel}::{q3}::busy {busy} consulted by a notifier',
+                                        f'`{short(pf.nsrc(tests[0]), 60)}` makes the notification depend on whether {qual} is running: an event delivered during an '
+                                        'update is dropped instead of being recorded in its dirty flag (lost update: the target sha / review / label state CI merges '
+                                        'on stays stale)', mod3.path, getattr(tests[0], 'lineno', 0))
+    ctx.need(n_cls >= 1, 'no coroutine with the dirty-flag idiom (test / clear / awaited refresh) found in ci/ci (anchor vanished)')
+
+
+def _check_single_flight(ctx: Ctx, mod: pf.Module, cls: ast.ClassDef, qual: str, fn: pf.FuncDef, cfg: pf.CFG, reach: Set[int], awaits: List[pf.Node],
+                         flags: Set[str]) -> Optional[str]:
+    recv = fn.args.args[0].arg
+    where = f'{mod.rel}::{qual}'
+    writes: Dict[str, Dict[bool, List[pf.Node]]] = {}
+    for n in cfg.nodes:
+        if n.id in reach and n.kind == 'stmt' and n.ast is not None:
+            for _, t, v in _attr_assigns(n.ast):
+                if pf.nsrc(t.value) == recv and isinstance(v, ast.Constant) and isinstance(v.value, bool):
+                    writes.setdefault(t.attr, {True: [], False: []})[v.value].append(n)
+    mutexes = [a for a, w in writes.items() if a not in flags and w[True] and af.mentions(fn, f'{recv}.{a}')
+               and any(n.kind == 'test' and af.mentions(n.ast, f'{recv}.{a}') for n in cfg.nodes if n.id in reach and n.ast is not None)]
+    if not mutexes:
+        ctx.bad('R7', f'{where}::single flight', f'{qual} consumes the dirty flags {sorted(flags)} but no `self.<busy> = True` guard is taken before its suspension points: two '
+                'notifications run the refresh / heal / merge sequence concurrently and each can merge a PR against the same target commit', mod.path, fn.lineno)
+        return None
+    ctx.need(len(mutexes) == 1, f'{where}: several candidate busy flags {mutexes}')
+    u = mutexes[0]
+    src = f'{recv}.{u}'
+    acquires, releases = writes[u][True], writes[u][False]
+    free_edges = _value_edges(cfg, src, False)
+    for s in acquires:
+        guard, susp = _atomic_guard(cfg, s, free_edges)
+        ctx.check(guard is not None, 'R7', f'{where}::busy {u}::acquire',
+                  f'`{src} = True` is not reached atomically from a test that found {src} false'
+                  + (f' (suspension point `{short(susp.text(), 50)}` in between)' if susp is not None else '')
+                  + ': two notifications both pass the test and run refresh / heal / try_to_merge concurrently, each merging a PR against the same target commit',
+                  mod.path, s.lineno, detail={'guard': pf.nsrc(guard[0].ast) if guard else None})
+    unlocked = None
+    for w in awaits:
+        if not cfg.dominated_by(w, lambda n: any(n is s for s in acquires)):
+            unlocked = w
+            break
+    ctx.check(unlocked is None, 'R7', f'{where}::busy {u}::held across every suspension',
+              f'the suspension point `{short(unlocked.text(), 60) if unlocked else ""}` (line {unlocked.lineno if unlocked else 0}) is reachable without `{src} = True`: while it is '
+              'suspended a second notification enters the same coroutine, and both run try_to_merge on the same target commit (two merges per target update)',
+              mod.path, unlocked.lineno if unlocked else fn.lineno)
+    early = None
+    for r in releases:
+        early = cfg.path_avoiding(r, pf.node_has_await, lambda n: False)
+        if early:
+            break
+    ctx.check(early is None and bool(releases), 'R7', f'{where}::busy {u}::released last',
+              (f'`{src} = False` is followed by the suspension point `{short(early[-1].text(), 50)}` [{_fmt_path(early)}]: the guard is dropped while the coroutine still works, a '
+               'concurrent notification starts a second refresh / merge pass' if early else f'`{src}` is never released'), mod.path, (releases[0].lineno if releases else fn.lineno))
+    stuck = None
+    for s in acquires:
+        stuck = cfg.path_avoiding(s, lambda n: n is cfg.exit or n is cfg.raise_exit, lambda n: any(n is r for r in releases))
+        if stuck:
+            break
+    ctx.check(stuck is None, 'R7', f'{where}::busy {u}::released on every exit',
+              f'{qual} can leave with `{src}` still set [{_fmt_path(stuck) if stuck else ""}] (e.g. when a GitHub request raises): every later notification returns at the '
+              '`already updating` test with its flag raised and never processed - the state CI acts on (target sha, reviews, labels) is frozen', mod.path, fn.lineno)
+    return u
+
+
+# --------------------------------------------------------------------------------------
+# R8: where the review state comes from
+# --------------------------------------------------------------------------------------
+
+
+def _check_review_provenance(ctx: Ctx, mods: List[pf.Module], m: pf.Module, facts: Facts) -> None:
+    # (a) writers of .review_state
+    n_w = 0
+    for mod in mods:
+        for qual, fn in mod.functions():
+            for st, t, v in _attr_assigns(fn):
+                if t.attr != 'review_state':
+                    continue
+                n_w += 1
+                cons = f'{mod.rel}::{qual}::{short(pf.nsrc(st), 50)}'
+                if mod.rel == F and qual == 'PR.set_review_state':
+                    params = [a.arg for a in fn.args.args]
+                    ctx.check(isinstance(v, ast.Name) and v.id in params[1:] and pf.nsrc(t.value) == params[0], 'R8', cons,
+                              f'set_review_state stores `{pf.nsrc(v)}`, not the state it is given', mod.path, st.lineno)
+                elif mod.rel == F and qual == 'PR.__init__':
+                    ctx.check(isinstance(v, ast.Constant) and v.value != 'approved', 'R8', cons,
+                              f'a new PR object starts with review_state `{pf.nsrc(v)}`: it counts as approved before GitHub has been asked', mod.path, st.lineno)
+                else:
+                    ctx.bad('R8', cons, 'review_state is written outside PR.set_review_state / PR.__init__: the approval is_mergeable reads no longer is the '
+                            'reviewDecision GitHub reported at the last refresh', mod.path, st.lineno)
+    ctx.need(n_w >= 2, 'writers of review_state not found (anchor vanished)')
+    # (b) callers of set_review_state
+    calls = []
+    for mod in mods:
+        for qual, fn in mod.functions():
+            for c in pf.calls_in(fn):
+                if isinstance(c.func, ast.Attribute) and c.func.attr == 'set_review_state':
+                    calls.append((mod, qual, fn, c))
+    ctx.need(calls, 'no caller of set_review_state found (anchor vanished)')
+    for mod, qual, fn, c in calls:
+        cons = f'{mod.rel}::{qual}::{short(pf.nsrc(c), 50)}'
+        if not (mod.rel == F and qual == 'PR._update_github' and pf.nsrc(c.func.value) == 'self'):
+            arg = c.args[0] if c.args else None
+            ctx.check(arg is not None and isinstance(arg, ast.Constant) and arg.value != 'approved', 'R8', cons,
+                      'the review state is set outside PR._update_github (the refresh that reads GitHub\'s reviewDecision): an approval that GitHub does not report '
+                      '(dismissed / changes requested) can make the PR mergeable', mod.path, c.lineno)
+            continue
+        ctx.need(len(c.args) == 1 and isinstance(c.args[0], ast.Name), f'{cons}: argument is not a local variable')
+        var = c.args[0].id
+        cfg = pf.cfg(fn)
+        defs = guards.def_nodes(cfg, var)
+        ctx.need(defs, f'{cons}: no definition of `{var}`')
+        dec_vars: Set[str] = set()
+        n_app = 0
+        for d in defs:
+            val = d.ast.value if isinstance(d.ast, (ast.Assign, ast.AnnAssign)) else None
+            ctx.need(val is not None and pf.const_str(val) is not None, f'PR._update_github: `{short(d.text(), 50)}` is not a constant review state')
+            if pf.const_str(val) != 'approved':
+                continue
+            n_app += 1
+
+            def approved_edge(e: ast.expr, pol: bool) -> bool:
+                if _const_eq_fact(e, pol, lambda x: isinstance(x, ast.Name), 'APPROVED'):
+                    for side in (e.left, e.comparators[0]):  # type: ignore[attr-defined]
+                        if isinstance(side, ast.Name):
+                            dec_vars.add(side.id)
+                    return True
+                return False
+            path = _unguarded_path(cfg, facts, [cfg.entry], lambda n, d=d: n is d, approved_edge)
+            ctx.check(path is None, 'R8', f"{F}::PR._update_github::{var} = 'approved'",
+                      f"`{var} = 'approved'` is reachable without `<reviewDecision> == 'APPROVED'` " + (f'[{_fmt_path(path)}]' if path else '')
+                      + ': a PR whose review is pending / dismissed / changes-requested is recorded as approved and merged once its checks pass', m.path, d.lineno)
+        ctx.need(n_app >= 1, "PR._update_github never derives 'approved' (anchor changed)")
+        # the decision variable is read from this refresh's response
+        for dv in sorted(dec_vars):
+            srcs = []
+            for n in ast.walk(fn):
+                tg = []
+                if isinstance(n, ast.Assign):
+                    tg = [(t, n.value) for t in n.targets]
+                elif isinstance(n, ast.NamedExpr):
+                    tg = [(n.target, n.value)]
+                for t, v in tg:
+                    if isinstance(t, ast.Name) and t.id == dv:
+                        srcs.append(v)
+            ctx.need(srcs, f'PR._update_github: no assignment of `{dv}`')
+            def leaves(v: ast.AST) -> List[ast.AST]:
+                if isinstance(v, ast.IfExp):
+                    return leaves(v.body) + leaves(v.orelse)
+                if isinstance(v, ast.BoolOp) and isinstance(v.op, ast.Or):
+                    return [x for y in v.values for x in leaves(y)]
+                return [v]
+
+            def leaf_ok(v: ast.AST) -> bool:
+                return (isinstance(v, ast.Constant) and v.value != 'APPROVED') or (isinstance(v, ast.Subscript) and pf.const_str(v.slice) == 'reviewDecision')
+            fresh = all(leaf_ok(x) for v in srcs for x in leaves(v))
+            stale = [x for v in srcs for x in leaves(v) if not leaf_ok(x) and any(isinstance(y, ast.Attribute) and isinstance(y.value, ast.Name) and y.value.id == 'self'
+                                                                                 for y in ast.walk(x))]
+            cons2 = f'{F}::PR._update_github::{dv} source'
+            if stale:
+                ctx.bad('R8', cons2, f"`{dv}` is read from `{short(pf.nsrc(stale[0]), 60)}`, a field of the PR object, not from the `reviewDecision` of this refresh's "
+                        'response: an approval that has been dismissed since stays in force', m.path, getattr(stale[0], 'lineno', fn.lineno))
+            else:
+                ctx.need(fresh, f'PR._update_github: `{dv}` is assigned from an unrecognised source')
+                ctx.ok('R8', cons2, {'sources': [short(pf.nsrc(v), 60) for v in srcs]})
+        # (c) a changed state is always stored
+        set_nodes = cfg.node_of(c)
+        path = _unguarded_path(cfg, facts, [n for d in defs for n, _ in d.succ] or [cfg.entry], lambda n: n is cfg.exit,
+                               lambda e, pol: guards.is_eq_fact(e, pol, var, 'self.review_state'), avoid=lambda n: any(n is x for x in set_nodes))
+        ctx.check(path is None, 'R8', f'{F}::PR._update_github::changed review state is stored',
+                  f'PR._update_github can finish with `{var} != self.review_state` without calling set_review_state ' + (f'[{_fmt_path(path)}]' if path else '')
+                  + ": e.g. an approval that was dismissed / turned into 'changes requested' is not recorded and the PR is still merged as approved", m.path, c.lineno)
+
+
+# --------------------------------------------------------------------------------------
+# R9: what the gate reads is refreshed from GitHub, and GitHub / batch events reach the refresh
+# --------------------------------------------------------------------------------------
+
+
+def _stored_when_changed(ctx: Ctx, m: pf.Module, qual: str, attr_src: str, source_ok: Callable[[pf.FuncDef, str, ast.AST], Optional[str]], why: str) -> None:
+    """In `qual`, `attr_src` is assigned from a local that holds this refresh's answer, on every path on which the two differ."""
+    fn = m.func(qual)
+    cfg = pf.cfg(fn)
+    stores = [n for n in cfg.nodes if n.kind == 'stmt' and isinstance(n.ast, (ast.Assign, ast.AnnAssign))
+              and any(pf.nsrc(t) == attr_src for _, t, _v in _attr_assigns(n.ast))]
+    cons = f'{F}::{qual}::{attr_src} refreshed'
+    if not stores:
+        ctx.bad('R9', cons, f'{qual} no longer stores {attr_src}: {why}', m.path, fn.lineno)
+        return
+    for st in stores:
+        v = st.ast.value  # type: ignore[union-attr]
+        if isinstance(v, ast.Constant) and v.value is None:
+            continue  # forgetting the value is always safe (nothing is up to date / mergeable)
+        ctx.need(isinstance(v, ast.Name), f'{qual}: `{short(st.text(), 60)}` does not store a local variable')
+        var = v.id  # type: ignore[union-attr]
+        defs = guards.def_nodes(cfg, var)
+        ctx.need(len(defs) == 1 and isinstance(defs[0].ast, (ast.Assign, ast.AnnAssign)), f'{qual}: `{var}` does not have exactly one definition')
+        bad_src = source_ok(fn, var, defs[0].ast.value)  # type: ignore[union-attr]
+        if bad_src is not None:
+            ctx.bad('R9', cons, f'`{st.text()}`: {bad_src}: {why}', m.path, st.lineno)
+            continue
+        path = _unguarded_path(cfg, Facts(), [x for x, _ in defs[0].succ], lambda n: n is cfg.exit,
+                               lambda e, pol: guards.is_eq_fact(e, pol, var, attr_src), avoid=lambda n: any(n is x for x in stores))
+        ctx.check(path is None, 'R9', cons, f'{qual} can finish with `{var} != {attr_src}` without storing the new value ' + (f'[{_fmt_path(path)}]' if path else '')
+                  + f': {why}', m.path, st.lineno, detail={'local': var})
+
+
+def _check_freshness(ctx: Ctx, mods: List[pf.Module], m: pf.Module) -> None:
+    def from_ref_request(fn: pf.FuncDef, var: str, value: ast.AST) -> Optional[str]:
+        e = pf.expand_locals(fn, value)
+        base = e
+        while isinstance(base, ast.Subscript):
+            base = base.value
+        if any(isinstance(x, ast.Attribute) and isinstance(x.value, ast.Name) and x.value.id == 'self' for x in ast.walk(e)):
+            return f'`{var}` is computed from a field of the object (`{short(pf.nsrc(e), 50)}`), not from the branch ref GitHub returns in this refresh'
+        ctx.need(isinstance(base, ast.Name), f'WatchedBranch._update_github: `{var} = {short(pf.nsrc(value), 50)}` is not a field of a response')
+        d = pf.single_def(fn, base.id)  # type: ignore[union-attr]
+        ctx.need(isinstance(d, ast.Await) and isinstance(d.value, ast.Call), f'WatchedBranch._update_github: `{base.id}` is not an awaited request')  # type: ignore[union-attr]
+        tpl = ' '.join(pf.fstring_template(a, lambda x: '\x00') or '' for a in d.value.args)  # type: ignore[union-attr]
+        ctx.need('/git/refs/heads/' in tpl or '/git/ref/heads/' in tpl or '/branches/' in tpl, f'WatchedBranch._update_github: `{short(pf.nsrc(d), 60)}` is not a branch ref request')
+        return None
+
+    def from_param(key: str) -> Callable[[pf.FuncDef, str, ast.AST], Optional[str]]:
+        def chk(fn: pf.FuncDef, var: str, value: ast.AST) -> Optional[str]:
+            params = {a.arg for a in fn.args.args[1:]}
+            ok = any(isinstance(x, ast.Subscript) and pf.const_str(x.slice) == key and isinstance(x.value, ast.Name) and x.value.id in params for x in ast.walk(value))
+            if ok:
+                return None
+            if any(isinstance(x, ast.Attribute) and isinstance(x.value, ast.Name) and x.value.id == 'self' for x in ast.walk(value)):
+                return f"`{var}` is computed from the object's own fields, not from `{key}` of the GitHub payload"
+            raise AnalysisError(f'{fn.name}: `{var} = {short(pf.nsrc(value), 50)}` is not derived from the payload field {key!r}')
+        return chk
+
+    def fresh_map(fn: pf.FuncDef, var: str, value: ast.AST) -> Optional[str]:
+        if (isinstance(value, ast.Dict) and not value.keys) or (isinstance(value, ast.Call) and pf.dotted(value.func) == 'dict' and not value.args and not value.keywords):
+            return None
+        if any(isinstance(x, ast.Attribute) and pf.nsrc(x) == S_STATUS for x in ast.walk(value)):
+            return f'the new status map `{var}` starts from the previous one (`{short(pf.nsrc(value), 50)}`): statuses GitHub reported for an earlier head stay in it'
+        raise AnalysisError(f'PR._update_github: `{var} = {short(pf.nsrc(value), 50)}` is not a fresh map')
+
+    _stored_when_changed(ctx, m, 'WatchedBranch._update_github', 'self.sha', from_ref_request,
+                         'the target commit CI believes in stays stale and a PR tested against the old target commit is "up to date" and merged')
+    _stored_when_changed(ctx, m, 'PR.update_from_gh_json', 'self.labels', from_param('labels'),
+                         'a WIP / do-not-merge label added on GitHub is not seen and the PR is merged')
+    _stored_when_changed(ctx, m, 'PR._update_github', S_STATUS, fresh_map,
+                         'a check that turned to failure / pending on the head (or statuses of a previous head) is not seen and the PR is merged')
+    # other writers of the whole status map / the labels
+    for mod in mods:
+        for qual, fn in mod.functions():
+            for st, t, v in _attr_assigns(fn):
+                if t.attr in ('last_known_github_status', 'labels') and not (mod.rel == F and qual in ('PR.__init__', 'PR._update_github', 'PR.update_from_gh_json')):
+                    if mod.rel == F and qual.startswith('PR.') or pf.nsrc(t.value) != 'self':
+                        ctx.bad('R9', f'{mod.rel}::{qual}::{short(pf.nsrc(st), 50)}', f'`{t.attr}` of a PR is written outside the GitHub refresh: is_mergeable no longer reads '
+                                'what GitHub reported', mod.path, st.lineno)
+    # wiring of the events
+    mci = None
+    for mod in mods:
+        if mod.rel.endswith('ci/ci/ci.py'):
+            mci = mod
+    ctx.need(mci is not None, 'ci/ci/ci.py not found')
+    handlers: Dict[str, List[pf.FuncDef]] = {}
+    for qual, fn in mci.functions():  # type: ignore[union-attr]
+        for d in fn.decorator_list:
+            if isinstance(d, ast.Call) and isinstance(d.func, ast.Attribute) and d.func.attr == 'register' and d.args and pf.const_str(d.args[0]) is not None:
+                handlers.setdefault(pf.const_str(d.args[0]), []).append(fn)  # type: ignore[arg-type]
+
+    def notifies(fn: pf.FuncDef, what: str) -> bool:
+        return any(isinstance(c.func, ast.Attribute) and c.func.attr in (what, 'update') for c in pf.calls_in(fn))
+    for ev, why in (('push', 'a push to the target branch is not noticed: the target sha stays stale and a PR tested against the old commit is merged'),
+                    ('pull_request', 'a new head commit / label change is not noticed until the periodic refresh'),
+                    ('pull_request_review', 'a dismissed approval / requested change is not noticed: the PR is merged as approved')):
+        cons = f'{mci.rel}::github event {ev}'  # type: ignore[union-attr]
+        hs = handlers.get(ev, [])
+        ctx.check(bool(hs) and all(notifies(h, 'notify_github_changed') for h in hs), 'R9', cons,
+                  f'no handler of the GitHub `{ev}` event calls notify_github_changed: {why}', mci.path, hs[0].lineno if hs else 0)  # type: ignore[union-attr]
+    bch = [fn for qual, fn in mci.functions() if notifies(fn, 'notify_batch_changed') and qual != 'update_loop']  # type: ignore[union-attr]
+    ctx.check(bool(bch), 'R9', f'{mci.rel}::batch callback', 'no handler calls notify_batch_changed: batch completions are only seen by the periodic refresh',  # type: ignore[union-attr]
+              mci.path, 0)  # type: ignore[union-attr]
+
+
+# --------------------------------------------------------------------------------------
+# R10: what counts as a succeeded check
+# --------------------------------------------------------------------------------------
+
+SUCCESS_STATES = {'SUCCESS', 'NEUTRAL'}  # GitHub's own "passing" conclusions; everything else is pending or failed
+
+
+def _check_status_mapping(ctx: Ctx, mods: List[pf.Module], m: pf.Module) -> None:
+    mu = None
+    for mod in mods:
+        if mod.has_func('github_status'):
+            mu = mod
+    ctx.need(mu is not None, 'github_status() not found in ci/ci (anchor vanished)')
+    fn = mu.func('github_status')  # type: ignore[union-attr]
+    params = [a.arg for a in fn.args.args]
+    ctx.need(len(params) == 1, f'github_status: parameters {params}')
+    st = params[0]
+    cfg = pf.cfg(fn)
+    n_succ = 0
+    for r in [n for n in cfg.nodes if n.kind == 'return' and isinstance(n.ast, ast.Return)]:
+        v = r.ast.value  # type: ignore[union-attr]
+        ctx.need(v is not None and (pf.dotted(v) or '').startswith('GithubStatus.'), f'github_status: return `{pf.nsrc(r.ast)}` is not a GithubStatus constant')
+        if pf.dotted(v) != 'GithubStatus.SUCCESS':
+            continue
+        n_succ += 1
+        widened: List[str] = []
+
+        def passing(e: ast.expr, pol: bool) -> bool:
+            if not pol:
+                return False
+            if _const_eq_fact(e, True, lambda x: pf.nsrc(x) == st, 'SUCCESS') or _const_eq_fact(e, True, lambda x: pf.nsrc(x) == st, 'NEUTRAL'):
+                return True
+            if isinstance(e, ast.Compare) and len(e.ops) == 1 and isinstance(e.ops[0], ast.In) and pf.nsrc(e.left) == st \
+                    and isinstance(e.comparators[0], (ast.Set, ast.List, ast.Tuple)) and all(pf.const_str(x) is not None for x in e.comparators[0].elts):
+                vals = {pf.const_str(x) for x in e.comparators[0].elts}
+                if vals <= SUCCESS_STATES:
+                    return True
+                widened.extend(sorted(vals - SUCCESS_STATES))  # type: ignore[arg-type]
+            return False
+        path = _unguarded_path(cfg, Facts(), [cfg.entry], lambda n, r=r: n is r, passing)
+        extra = f' (the test that leads here also admits {sorted(set(widened))})' if widened else ''
+        ctx.check(path is None, 'R10', f'{mu.rel}::github_status::return SUCCESS',  # type: ignore[union-attr]
+                  f'GithubStatus.SUCCESS is returned for states other than SUCCESS / NEUTRAL{extra} ' + (f'[{_fmt_path(path)}]' if path else '')
+                  + ': a skipped / cancelled / pending / unknown check on the head counts as succeeded and the PR is merged', mu.path, r.lineno)  # type: ignore[union-attr]
+    ctx.need(n_succ >= 1, 'github_status never returns GithubStatus.SUCCESS (anchor changed)')
+    # every reported (required) check enters the status map
+    fn = m.func('PR._update_github')
+    cfg = pf.cfg(fn)
+    stores = [n for n in cfg.nodes if n.kind == 'stmt' and isinstance(n.ast, ast.Assign) and len(n.ast.targets) == 1 and isinstance(n.ast.targets[0], ast.Subscript)
+              and isinstance(n.ast.value, ast.Call) and pf.dotted(n.ast.value.func) == 'github_status']
+    ctx.need(stores, 'PR._update_github: no `<map>[…] = github_status(…)` found')
+    maps = {pf.nsrc(n.ast.targets[0].value) for n in stores}  # type: ignore[union-attr]
+    ctx.need(len(maps) == 1, f'PR._update_github: statuses stored into several maps {maps}')
+    loops = [n for n in cfg.nodes if n.kind == 'loop' and any(af.direct(cfg, n, s2, 'T') for s2 in stores)]
+    ctx.need(len(loops) == 1 and isinstance(loops[0].ast, ast.For) and isinstance(loops[0].ast.target, ast.Name), 'PR._update_github: the loop over the reported checks is not recognised')
+    loop = loops[0]
+    var = loop.ast.target.id  # type: ignore[union-attr]
+    for s2 in stores:
+        arg = s2.ast.value.args[0] if s2.ast.value.args else None  # type: ignore[union-attr]
+        good = isinstance(arg, ast.Subscript) and pf.nsrc(arg.value) == var and pf.const_str(arg.slice) in ('state', 'conclusion')
+        ctx.check(good, 'R10', f'{F}::PR._update_github::{short(s2.text(), 60)}', f'the status recorded for a check is `{pf.nsrc(s2.ast.value)}`, not github_status of the '  # type: ignore[union-attr]
+                  f"check's own state / conclusion", m.path, s2.lineno)
+    starts = [x for x, lab in loop.succ if lab == 'T']
+    path = _unguarded_path(cfg, Facts(), starts, lambda n: n is loop,
+                           lambda e, pol: (not pol) and isinstance(e, ast.Subscript) and pf.nsrc(e.value) == var and pf.const_str(e.slice) == 'isRequired',
+                           avoid=lambda n: any(n is s2 for s2 in stores))
+    ctx.check(path is None, 'R10', f'{F}::PR._update_github::every required check is recorded',
+              'a reported check can be left out of the status map for a reason other than `not isRequired` ' + (f'[{_fmt_path(path)}]' if path else '')
+              + ': e.g. a pending or failed check is ignored, the remaining ones are all SUCCESS and the PR is merged', m.path, loop.lineno)
+
+
+def _is_none(e: ast.AST) -> bool:
+    return isinstance(e, ast.Constant) and e.value is None
+
+
+# --------------------------------------------------------------------------------------
+
+
+def _group(ctx: Ctx, errors: List[str], fn: Callable, *args) -> None:
+    """Run one rule group; an undecidable shape in one group must not hide the verdicts of the others."""
+    try:
+        fn(*args)
+    except AnalysisError as e:
+        errors.append(str(e))
+
+
 def run(ctx: Ctx) -> None:
     ctx.explanation = ('Who-may-call closure over ci/ci/*.py for the GitHub merge request, PR.merge and try_to_merge; CFG must-pass-through with branch polarity '
-                       'for the is_mergeable gate, the single-merge exit and the tested chain; fact extraction over the conjunction returned by is_mergeable.')
-    ctx.rule('R1', 'merge request only in PR.merge; PR.merge only from try_to_merge behind `pr.is_mergeable()`; try_to_merge only from _update', 3)
+                       'for the is_mergeable gate, the single-merge exit and the tested chain; fact extraction over the conjunction returned by is_mergeable; '
+                       'abstract dict evaluation of the request body; await-atomicity of the dirty-flag test-and-clear and of the busy guard of the update coroutine.')
+    ctx.rule('R1', 'merge request only in PR.merge; PR.merge only from try_to_merge behind `pr.is_mergeable()`; try_to_merge only from _update; no GraphQL merge mutation', 4)
     ctx.rule('R2', 'is_mergeable is a conjunction containing approved, statuses non-empty, all SUCCESS, batch target_sha == target sha, no DO_NOT_MERGE label', 6)
     ctx.rule('R3', 'a successful merge ends try_to_merge (no second merge) after resetting the target sha', 2)
     ctx.rule('R4', "merge request pins 'sha': self.source_sha; a head change records the head, clears batch and build state", 4)
     ctx.rule('R5', "tested chain: SUCCESS only from build_state 'success' <- completed successful batch of the current head and target; _heal before every merge attempt", 12)
+    ctx.rule('R6', 'dirty flags raised by notifications are cleared only atomically with the test that found them set, before the awaited refresh, and are re-tested '
+             'after every suspension before the update coroutine returns; notifiers raise their flag unconditionally (no lost update)', 11)
+    ctx.rule('R7', 'the update coroutine is single-flight: busy guard taken atomically before the first suspension, held across all of them, released last and on every exit', 4)
+    ctx.rule('R8', "review_state 'approved' is derived only from this refresh's reviewDecision == 'APPROVED', stored through set_review_state whenever it changed", 5)
+    ctx.rule('R9', 'target sha, labels and status map are replaced by what this refresh read from GitHub whenever they differ; push / pull_request / review / batch '
+             'events reach the refresh', 7)
+    ctx.rule('R10', 'a check counts as succeeded only for GitHub states SUCCESS / NEUTRAL, and every required check reported for the head enters the status map', 4)
     ctx.assume('GitHub rejects PUT …/merge when the pinned sha is not the pull request head')
-    ctx.assume('within one WatchedBranch._update call no other coroutine mutates the PR objects (guarded by `self.updating`)')
+    ctx.assume('asyncio: a coroutine is atomic between two suspension points (await / async with / async for)')
     mods = [pf.load(rel) for rel in pf.walk_py(['ci/ci'])]
     ctx.unit('files', len(mods))
     ctx.unit('functions', sum(len(mm.functions()) for mm in mods))
     m = pf.load(F)
     facts = Facts(m.cls('PR'))
-    merge_calls = _check_callers(ctx, mods, m, facts)
-    _check_is_mergeable(ctx, m, facts)
-    _check_one_merge(ctx, m, facts, merge_calls)
-    _check_pin_and_reset(ctx, m, _merge_request_sites(mods))
-    _check_tested_chain(ctx, mods, m, facts)
+    errors: List[str] = []
+    sites: List = []
+    merge_calls: List = []
+
+    def callers() -> None:
+        sites.extend(_merge_request_sites(mods))
+        merge_calls.extend(_check_callers(ctx, mods, m, facts, sites))
+    _group(ctx, errors, callers)
+    _group(ctx, errors, _check_is_mergeable, ctx, m, facts)
+    _group(ctx, errors, lambda: _check_one_merge(ctx, m, facts, merge_calls) if merge_calls else None)
+    _group(ctx, errors, _check_pin_and_reset, ctx, m, sites)
+    _group(ctx, errors, _check_tested_chain, ctx, mods, m, facts)
+    _group(ctx, errors, _check_flags, ctx, mods)
+    _group(ctx, errors, _check_review_provenance, ctx, mods, m, facts)
+    _group(ctx, errors, _check_freshness, ctx, mods, m)
+    _group(ctx, errors, _check_status_mapping, ctx, mods, m)
+    if errors:
+        raise AnalysisError('; '.join(errors[:3]))
